@@ -74,6 +74,88 @@ def assigned_names(stmts):
     return out
 
 
+MUTATORS = {"append", "extend", "insert", "pop", "remove", "clear", "sort", "reverse", "update", "add", "discard",
+            "setdefault", "popitem", "fill", "put", "resize", "appendleft", "popleft"}
+
+
+def mutated_names(stmts):
+    """names whose referent the body may mutate in place: x[...] = , x[...] op= , x.a = , x.a[...] = ,
+    x.<mutating method>(...) and x op= (in-place for containers/arrays)"""
+    out = set()
+
+    def base(t):
+        while isinstance(t, (ast.Subscript, ast.Attribute)):
+            t = t.value
+        return t.id if isinstance(t, ast.Name) else None
+
+    def store(t):
+        if isinstance(t, (ast.Subscript, ast.Attribute)):
+            b = base(t)
+            out.add(b if b is not None else "?")
+        elif isinstance(t, (ast.Tuple, ast.List)):
+            for e in t.elts:
+                store(e)
+    for s in stmts:
+        for n in ast.walk(s):
+            if isinstance(n, ast.Assign):
+                for t in n.targets:
+                    store(t)
+            elif isinstance(n, ast.AugAssign):
+                store(n.target)
+                if isinstance(n.target, ast.Name):
+                    out.add(n.target.id)
+            elif isinstance(n, ast.Call) and isinstance(n.func, ast.Attribute) and n.func.attr in MUTATORS:
+                b = base(n.func.value)
+                out.add(b if b is not None else "?")
+            elif isinstance(n, ast.Delete):
+                for t in n.targets:
+                    store(t)
+    return out
+
+
+def havoc_containers(ctx, frame, names, allowed):
+    """arrays the body writes to get arbitrary contents (same length); any other mutated container or object must be
+    declared in the contract (`frame=[names]`: the invariant does not depend on their state and neither does
+    anything after the loop that is proved) - otherwise the loop is outside the supported subset"""
+    for nm in sorted(names):
+        if nm == "?":
+            raise Unsupported("loop body mutates an object reached through an expression")
+        if nm not in frame.locals:
+            continue
+        v = frame.locals[nm]
+        if isinstance(v, SymArr):
+            if v.kind == "complex":
+                fr = ctx.fresh_fn("loop_%s_re" % nm, I, R)
+                fi = ctx.fresh_fn("loop_%s_im" % nm, I, R)
+                v.elem = (lambda fr, fi: lambda i: Cx(fr(lift_i(i)), fi(lift_i(i))))(fr, fi)
+            elif v.kind == "bool":
+                fb = ctx.fresh_fn("loop_%s" % nm, I, z3.BoolSort())
+                v.elem = (lambda fb: lambda i: fb(lift_i(i)))(fb)
+            else:
+                # may be assigned complex values in the body: model both components
+                fr = ctx.fresh_fn("loop_%s_re" % nm, I, R)
+                if getattr(v, "dtype_complex", False):
+                    fi = ctx.fresh_fn("loop_%s_im" % nm, I, R)
+                    v.elem = (lambda fr, fi: lambda i: Cx(fr(lift_i(i)), fi(lift_i(i))))(fr, fi)
+                    v.kind = "complex"
+                else:
+                    v.elem = (lambda fr: lambda i: fr(lift_i(i)))(fr)
+        elif isinstance(v, Vec):
+            v.data = [Cx(ctx.fresh("loop_%s_re" % nm, R), ctx.fresh("loop_%s_im" % nm, R)) if isinstance(e, Cx)
+                      else ctx.fresh("loop_" + nm, z3.BoolSort()) if (isinstance(e, bool) or (is_z3(e) and z3.is_bool(e)))
+                      else ctx.fresh("loop_" + nm, R) for e in v.data]
+        elif is_scalar(v) or isinstance(v, (str, type(None), Cx)):
+            continue
+        elif nm in allowed:
+            continue
+        else:
+            raise Unsupported("loop body mutates %r (%s), which the loop contract does not frame" % (nm, type(v).__name__))
+
+
+def lift_i(i):
+    return z3.IntVal(i) if isinstance(i, int) else i
+
+
 def int_preserving(stmts, name):
     """every assignment to `name` in the body keeps it an integer (x = <int>, x += <int>, x -= <int>,
     x = x + <int>, loop target of range/enumerate index)"""
@@ -148,6 +230,7 @@ def exec_while_inv(it, st, frame, ctx, inv):
     ctx.prove(name + ":entry", call_inv(it, ctx, inv, frame, {}))
     names = assigned_names(st.body) | set(inv.get("havoc", []))
     havoc(ctx, frame, names, body=st.body)
+    havoc_containers(ctx, frame, mutated_names(st.body), set(inv.get("frame", [])))
     ctx.assume(call_inv(it, ctx, inv, frame, {}))
     phase = ctx.choice(2)
     cond = it.ev_cond(st.test, frame, ctx)
@@ -204,6 +287,7 @@ def exec_for_inv(it, st, frame, ctx, iterable, inv):
     ctx.prove(name + ":entry", call_inv(it, ctx, inv, frame, {"_k": 0, "_n": n}))
     names = (assigned_names(st.body) | set(inv.get("havoc", []))) - assigned_names([ast.Assign(targets=[st.target], value=None)] if False else [])
     havoc(ctx, frame, names, body=st.body)
+    havoc_containers(ctx, frame, mutated_names(st.body), set(inv.get("frame", [])))
     k = ctx.fresh("loop_k", I)
     phase = ctx.choice(2)
     if phase == 0:
